@@ -1227,3 +1227,26 @@ def _as_load(target: ast.expr) -> ast.expr:
 def eval_literal_table(node: ast.expr, env: Optional[Dict[str, Any]] = None):
     """Evaluates a module/class-level table expression (literals + index arithmetic)."""
     return Evaluator(env=env).eval(node)
+
+
+def empty_defaults(repo, cls, obj: "Obj") -> "Obj":
+    """Gives a model object every attribute the class' constructor initialises with an EMPTY container (``self.x = []``,
+    ``set()``, ``{}``) and the model has not set itself - so that a rule's model does not have to know about bookkeeping
+    attributes it is not about (they start empty in the real object too). Anything else must be set by the rule."""
+    for c in repo.mro(cls):
+        init = c.methods.get("__init__")
+        if init is None:
+            continue
+        selfname = init.params[0] if init.params else "self"
+        for n in ast.walk(init.node):
+            if isinstance(n, (ast.Assign, ast.AnnAssign)) and n.value is not None:
+                for t in n.targets if isinstance(n, ast.Assign) else [n.target]:
+                    if isinstance(t, ast.Attribute) and isinstance(t.value, ast.Name) and t.value.id == selfname and not obj.has(t.attr):
+                        v = n.value
+                        if isinstance(v, ast.List) and not v.elts:
+                            obj.set(t.attr, [])
+                        elif isinstance(v, ast.Dict) and not v.keys:
+                            obj.set(t.attr, {})
+                        elif isinstance(v, ast.Call) and isinstance(v.func, ast.Name) and v.func.id in ("set", "list", "dict") and not v.args:
+                            obj.set(t.attr, {"set": set(), "list": [], "dict": {}}[v.func.id])
+    return obj
